@@ -52,8 +52,35 @@ def rand_sp(rng):
     return {k: rng.choice(VALS[k]) for k in sorted(ks)}
 
 
+# fixed scenarios re-deriving each known finding on the real code in every run (kind "script")
+SCRIPTS = {
+    "F2-bak": [["NewSession", "A"], ["OpenSp", 0, typed({"a": 0})], ["Init", 0, False],
+               ["PlantDir", ["A", "workspace", "9bfd29df07674bc4aa960cf661b5acd2.bak"]], ["Ids", 0], ["Len", 0]],
+    "dirty-after-conflict": [["NewSession", "A"], ["OpenSp", 0, typed({"a": 0})], ["Init", 0, False],
+                             ["OpenSp", 0, typed({"a": 1})], ["Init", 1, False],
+                             ["Edit", 0, [], ["set", "a", typed(1)]], ["Edit", 0, [], ["set", "b", typed(0)]]],
+    "stale-document": [["NewSession", "A"], ["OpenSp", 0, typed({"a": 0})], ["Init", 0, False],
+                       ["DocSet", 0, "p", typed(1)], ["OpenSp", 0, typed({"a": 0})], ["Doc", 1],
+                       ["Remove", 0], ["Init", 0, False], ["DocSet", 1, "q", typed("v")]],
+    "stale-directory-known": [["NewSession", "A"], ["OpenSp", 0, typed({"a": 0})], ["Init", 0, False],
+                              ["OpenSp", 0, typed({"a": 0})], ["Doc", 1], ["Remove", 0],
+                              ["DocSet", 1, "q", typed("v")]],
+    "lock-registry": [["NewSession", "A"], ["OpenSp", 0, typed({"a": 0})], ["Init", 0, False],
+                      ["OpenSp", 0, typed({"a": 0})], ["Sp", 1], ["Edit", 0, [], ["set", "a", typed(1)]],
+                      ["Edit", 1, [], ["set", "b", typed(0)]]],
+    "lock-registry-deepcopy": [["NewSession", "A"], ["OpenSp", 0, typed({"d": [7]})], ["Init", 0, False],
+                               ["DeepCopy", 0], ["Edit", 1, [], ["del", "d"]], ["Edit", 0, [], ["del", "d"]]],
+    "lifecycle-clean": [["NewSession", "A"], ["NewSession", "B"], ["OpenSp", 0, typed({"a": 0, "c": [1, 2]})],
+                        ["Init", 0, False], ["DocSet", 0, "p", typed([1, {"z": None}])],
+                        ["WriteFile", 0, ["sub", "x.bin"], "00ff10"], ["Sp", 0], ["Copy", 0],
+                        ["Assign", 1, typed({"a": 0, "c": [1, 3, 4]})], ["Clone", 1, 0], ["UpdateCache", 0],
+                        ["Move", 0, 1], ["NewSession", "A"], ["OpenId", 2, "0"], ["Reset", 2], ["Remove", 2],
+                        ["UpdateCache", 0], ["UpdateCache", 2]],
+}
+
+
 def gen_inputs(tier, rng):
-    descs = []
+    descs = [{"kind": "script", "name": k} for k in sorted(SCRIPTS)]
     if tier == "quick":
         for _ in range(150):
             descs.append({"kind": "random", "pseed": rng.randint(0, 10 ** 9), "len": rng.randint(8, 25), "plant": rng.random() < 0.1})
@@ -147,6 +174,12 @@ def random_ops(desc, W):
         return rng.choice(cands) if cands else None
 
     for _ in range(desc["len"]):
+        if desc.get("plant") and _ == desc["len"] - 2:
+            ws = W.sessions[0].workspace
+            present = sorted(x for x in os.listdir(ws) if len(x) == 32)
+            base = rng.choice(present) if present else "".join(rng.choice(HEX) for _ in range(32))
+            yield ["PlantDir", ["A", "workspace", base + rng.choice([".bak", "~", "_old"])]]
+            continue
         r = rng.random()
         nh = len(W.handles)
         if 0.24 <= r < 0.40:
@@ -164,10 +197,11 @@ def random_ops(desc, W):
             yield ["Init", h, False]
         elif r < 0.40:
             # a state point edit through h
-            try:
-                sp = W.handles[h].statepoint()
-            except Exception:  # noqa: BLE001
-                sp = {}
+            j = W.handles[h]       # peek without side effects (job.statepoint would create the _StatePointDict)
+            if not j._statepoint_requires_init:
+                sp = j._statepoint._to_base()
+            else:
+                sp = dict(j._cached_statepoint or {})
             k = rng.choice(KEYS)
             choice = rng.random()
             if choice < 0.5:
@@ -287,7 +321,12 @@ def run_case(desc):
     changes, rekeys = 0, 0
     with scratch_dir("c03") as d:
         W = wsops.World(d)
-        gen = word_ops(desc["word"]) if desc["kind"] == "word" else random_ops(desc, W)
+        if desc["kind"] == "word":
+            gen = word_ops(desc["word"])
+        elif desc["kind"] == "script":
+            gen = SCRIPTS[desc["name"]]
+        else:
+            gen = random_ops(desc, W)
         prev_ids = None
         for op in gen:
             out = W.run(op)
